@@ -56,10 +56,8 @@ pub fn check(shape: &Shape, input: &[u8], flush_end: bool, l: &mut Local) -> Cas
                 return Ok(());
             }
             judge("from_bytes_cobs", shape, input, &expected, r.map(|d| d.0), &cj)?;
-            let buf = a.slice(input.len(), flush);
-            if buf[frame.frame_end..] != input[frame.frame_end..] {
-                return Err(fail("cobs-decode", "from_bytes_cobs modified bytes after the first frame", cj()));
-            }
+            // (what from_bytes_cobs leaves behind the frame in the caller's buffer is not part of the statement:
+            // only take_from_bytes_cobs hands those bytes back, and there they are compared)
         }
         // take_from_bytes_cobs
         {
